@@ -15,7 +15,7 @@ THEOREMS = ["Genql.C04." + t for t in [
     "nestedRun_pure", "nestedPure_inner_eq", "nestedPure_left_eq", "toCatalog_entries", "hash_join_model_textbook",
     "nested_join_model_textbook"]] + ["Genql.KeyText." + t for t in [
         "tok_append_inj", "enc_injective", "encKey_injective", "rowKey_enc", "rowKey_eq_iff"]] + \
-    ["Genql.C04." + t for t in ["hard_eq_flat", "on_sound", "on_and_sound", "rowKey_total", "valueOfText_mem",
+    ["Genql.C04." + t for t in ["hard_eq_flat", "on_sound", "on_and_sound", "func_args_read_as_paths", "rowKey_total", "valueOfText_mem",
                                "join_cmp_model_textbook"]] + ["Genql.Obligations.C04.join_strategy_lines"]
 TRUSTED = ["Go map iteration order is an arbitrary permutation (results compared as multisets)",
            "SHA-256 of the key text is collision free",
